@@ -186,6 +186,9 @@ class Canon:
                     for f in dataclasses.fields(x)))
     if hasattr(x, '__vcanon__'):
       return ('custom', type(x).__qualname__, self.term(x.__vcanon__()))
+    if type(x).__module__.startswith('fiddle') and hasattr(x, '__dict__') and not callable(x):
+      return ('pyobj', type(x).__qualname__,
+              tuple((k, self.term(v)) for k, v in sorted(vars(x).items())))
     return ('opaque', type(x).__module__, type(x).__qualname__)
 
   def _buildable(self, b):
